@@ -28,6 +28,11 @@ type Env struct {
 	IDs     [][16]byte // topic ids to prefer
 	Groups  []string
 	Members []string
+	// HostileGroupMetadata: JoinGroup protocol metadata (consumer subscription bytes) is also
+	// drawn from hostile classes (huge / negative-looking topic counts, counts larger than the
+	// bytes present, truncated name lengths, empty or 1-5 byte blobs). Only for legs that run
+	// under a memory cap with crash_is_violation.
+	HostileGroupMetadata bool
 	// MaxArray is the largest array length drawn (default 3).
 	MaxArray int
 }
@@ -363,6 +368,44 @@ func genBytes(t *rapid.T, name string, env *Env, sh *Shape, path string) []byte 
 			n := rapid.IntRange(1, 3).Draw(t, path+"#recs")
 			l := rapid.IntRange(0, 20).Draw(t, path+"#vlen")
 			return RecordBatch(n, rapid.SliceOfN(rapid.Byte(), l, l).Draw(t, path))
+		}
+	}
+	if env.Bounded && env.HostileGroupMetadata && name == "Metadata" && rapid.IntRange(0, 1).Draw(t, path+"?hostile-metadata") == 0 {
+		sh.add("hostile-subscription")
+		var b []byte
+		b = binary.BigEndian.AppendUint16(b, uint16(rapid.SampledFrom([]int{0, 1, 3, 0xffff}).Draw(t, path+"#ver")))
+		switch rapid.IntRange(0, 5).Draw(t, path+"#hm") {
+		case 0: // nothing at all / a few bytes
+			n := rapid.IntRange(0, 5).Draw(t, path+"#cut")
+			return append(b, 0, 0, 0, 1)[:n]
+		case 1, 2: // a topic count that has nothing to do with the bytes present
+			cnt := rapid.SampledFrom([]uint32{0xffffffff, 0x7fffffff, 0x80000000, 0xfffffffe, 0xf0000000, 1000, 3}).Draw(t, path+"#count")
+			b = binary.BigEndian.AppendUint32(b, cnt)
+			if rapid.Bool().Draw(t, path+"#one-topic") {
+				b = binary.BigEndian.AppendUint16(b, 6)
+				b = append(b, "orders"...)
+			}
+			return b
+		case 3: // name length beyond the data
+			b = binary.BigEndian.AppendUint32(b, 2)
+			b = binary.BigEndian.AppendUint16(b, 6)
+			b = append(b, "orders"...)
+			b = binary.BigEndian.AppendUint16(b, uint16(rapid.SampledFrom([]int{7, 255, 0x7fff, 0xffff}).Draw(t, path+"#namelen")))
+			return append(b, "pay"...)
+		case 4: // negative-looking count, well-formed entries after it
+			b = binary.BigEndian.AppendUint32(b, 0xffffffff)
+			for _, tp := range []string{"orders", "payments"} {
+				b = binary.BigEndian.AppendUint16(b, uint16(len(tp)))
+				b = append(b, tp...)
+			}
+			return b
+		default: // random bytes
+			n := rapid.IntRange(0, 24).Draw(t, path+"#n")
+			r := rapid.SliceOfN(rapid.Byte(), n, n).Draw(t, path)
+			if len(r) >= 6 && r[2] < 0x80 && r[2] > 0 {
+				r[2] |= 0x80 // keep the count either tiny or beyond any memory cap (never a few GiB)
+			}
+			return r
 		}
 	}
 	if env.Bounded && name == "Metadata" {
